@@ -1,0 +1,5 @@
+//go:build !verif
+
+package memory
+
+func verifYield(string) {}
